@@ -49,7 +49,7 @@ fn main() {
         s if s.starts_with("xp-") => xp::main(s, rest),
         s if s.starts_with("cli-") => cli::main(s, rest),
         s if s.starts_with("ns-") => ns::main(s, rest),
-        s if s.starts_with("ps-") => parsehist::main(s, rest),
+        s if s.starts_with("ps-") || s.starts_with("qs-") => parsehist::main(s, rest),
         other => {
             eprintln!("unknown subcommand {}", other);
             2
